@@ -40,18 +40,42 @@ func Judge(cs Case, res Result) []Failure {
 	switch res.Outcome {
 	case "PANIC":
 		key := "panic:" + panicKey(res.Err)
-		if n := len(res.Events); n > 0 && res.Events[n-1].Kind == "R" && res.Events[n-1].Res == "got" {
-			switch res.Script[res.Events[n-1].Item].Kind {
-			case 'X':
-				key = "panic:stream-error-at-header"
-			case 'A':
-				for _, b := range cfg {
-					if b.NS == 1 && !b.Negotiable && !server {
-						add("C01", "negotiable", "forced-starttls-informational", "an informational feature (Negotiate == nil) in the STARTTLS namespace was selected for the unconditional STARTTLS attempt: %s", res.Err)
-						key = "panic:forced-starttls-informational"
-						break
+		// the last item delivered before the panic
+		last := byte(0)
+		var lastAdv []AdvItem
+		for _, e := range res.Events {
+			if e.Kind == "R" && e.Res == "got" {
+				last = res.Script[e.Item].Kind
+				lastAdv = res.Script[e.Item].Adv
+			}
+		}
+		switch {
+		case last == 'X':
+			key = "panic:stream-error-at-header"
+		case last == 'A' && !server:
+			// a nil Negotiate was called: the forced STARTTLS attempt with an informational
+			// feature, or an informational feature picked from the list
+			forced, picked := false, false
+			for _, b := range cfg {
+				if b.Negotiable {
+					continue
+				}
+				if b.NS == 1 {
+					forced = true
+				}
+				for _, a := range lastAdv {
+					if !a.Junk && a.NS == b.NS && a.Loc == b.Loc {
+						picked = true
 					}
 				}
+			}
+			switch {
+			case picked:
+				add("C01", "negotiable", "informational-feature-negotiated", "an informational feature (Negotiate == nil) of the features list was selected: %s", res.Err)
+				key = "panic:informational-feature-negotiated"
+			case forced:
+				add("C01", "negotiable", "forced-starttls-informational", "an informational feature (Negotiate == nil) in the STARTTLS namespace was selected for the unconditional STARTTLS attempt: %s", res.Err)
+				key = "panic:forced-starttls-informational"
 			}
 		}
 		add("C04", "panic", key, "negotiation panicked: %s", res.Err)
